@@ -833,12 +833,14 @@ def f32(x):
     return struct.unpack("f", struct.pack("f", x))[0]
 
 
-def gen_trr_frame(rng, natoms, present, step):
-    fr = {"natoms": natoms, "step": step, "time": fh(f32(rng.uniform(0, 100))), "lam": fh(f32(rng.random()))}
+def gen_trr_frame(rng, natoms, present, step, wide=False):
+    """wide: values that only double precision can hold (for frames written in double precision only)"""
+    r = (lambda x: x) if wide else f32
+    fr = {"natoms": natoms, "step": step, "time": fh(r(rng.uniform(0, 100))), "lam": fh(r(rng.random()))}
     for k in TRR_KEYS:
         if k in present:
             cnt = 9 if k in ("box", "vir", "pres") else natoms * 3
-            fr[k] = [fh(f32(rng.choice([rng.uniform(-99, 99), 0.0, -0.0, 1.5, rng.uniform(-1e-3, 1e-3)]))) for _ in range(cnt)]
+            fr[k] = [fh(r(rng.choice([rng.uniform(-99, 99), 0.0, -0.0, 1.5, rng.uniform(-1e-3, 1e-3)]))) for _ in range(cnt)]
         else:
             fr[k] = None
     return fr
@@ -2081,7 +2083,7 @@ def generate(rng, tier):
         for dbl in (False, True):
             for sh in shapes:
                 for nat in ((1, 3) if q else (1, 2, 3, 7, 20)):
-                    fr = gen_trr_frame(rng, nat, sh, rng.randrange(0, 10 ** 6))
+                    fr = gen_trr_frame(rng, nat, sh, rng.randrange(0, 10 ** 6), wide=dbl)
                     cases.append(("trr_decode", {"endian": e, "double": dbl, "frames": [fr], "wellformed": bool(sh), "tail": rng.choice(["", "00", "deadbeef"])}))
             fr = gen_trr_frame(rng, 1, ("box", "x", "v"), 7)
             full = len(trr_frame_bytes(e, dbl, fr))
